@@ -1320,6 +1320,11 @@ class KafkaClient(object):
         # We now have a list of (succeeded, response/Failure) tuples. Check 'em
         for (success, response), payloads in zip(results, payloadsList):
             if not success:
+                if response.check(t_CancelledError):
+                    # Our caller cancelled us (a request that times out fails
+                    # with RequestTimedOutError instead). That is not a
+                    # failure to send: pass the cancellation on as such.
+                    response.raiseException()
                 # The brokerclient deferred was errback()'d:
                 #   The send failed, or this request was cancelled (by timeout)
                 log.debug("%r: request:%r to broker failed: %r", self, payloads, response)
